@@ -180,11 +180,12 @@ def structural(tier, res):
 ORACLES = [
     {'name': 'metamorphic layout rewritings (blank/comment lines, trailing blanks, CRLF, indentation, property order), section-to-rule bijection, '
              'one-line corruptions with line-number check, and the unloadable-file report, on the real loaders', 'script': 'C17.py',
-     'bound': '4 rule blocks + 2 top-level lines, 3 view blocks + 2 globals; 8 layout variants; all property orders; ~40 corruptions; all block permutations'},
+     'bound': '4 rule blocks + 2 top-level lines, 3 view blocks + 2 globals; 8 layout variants; all property orders; ~60 corruptions (incl. 9 malformed priorities); all block permutations'},
 ]
 TRUSTED_BASE = ['pyvc symbolic executor and the syntactic information-flow clauses in props/C17.py', 'z3 5.1.0 / cvc5 1.0.3',
                 'parse_expression raises ExpressionError exactly for invalid expressions (C03/C07 contract), regex classifiers opaque (A6)']
 ASSUMPTIONS = ['order among let: lines and among a view\'s variable lines is semantic by design and not part of "distinct properties"',
                'a repeated key inside a section overrides the earlier one and property lines before the first header are ignored: recorded observations, not obligations']
-EXPLANATION = ('_add_rule proved by symbolic execution over all key-presence combinations; information-flow and close-site clauses for parse / parse_sections decided '
-               'syntactically; bounded stand-in (labelled): metamorphic and corruption tests on the real loaders.')
+EXPLANATION = ('_add_rule proved by symbolic execution over all key-presence combinations; the line loops of parse_sections and MerchantEngine.parse proved by loop invariants over ghost folds '
+               '(one view / one _add_rule call per header, in file order, with its line number; rejections name the line); information-flow clauses for parse decided syntactically; '
+               'bounded stand-in (labelled): metamorphic and corruption tests on the real loaders.')
